@@ -458,7 +458,12 @@ func (c *Client) publish(topicIDType uint8, topicID uint16, qos uint8, retain bo
 	case <-transaction.Done():
 		return transaction.Err()
 	case <-c.groupCtx.Done():
-		return c.group.Wait()
+		if err := c.group.Wait(); err != nil {
+			return err
+		}
+		// The client was closed (Close, or a DISCONNECT from the gateway)
+		// before the gateway acknowledged the message.
+		return errors.New("client closed before the PUBLISH was acknowledged")
 	}
 }
 
